@@ -459,7 +459,23 @@ func isErrCheckReturn(s ast.Stmt) bool {
 	if !ok || is.Init != nil || is.Else != nil {
 		return false
 	}
-	return types.ExprString(is.Cond) == "err != nil" && blockEndsInReturn(is.Body)
+	return types.ExprString(is.Cond) == "err != nil" && isReturnErr(is.Body)
+}
+
+// isReturnErr: a block that ends in `return err` (statements before it can only log: they must be calls)
+func isReturnErr(b *ast.BlockStmt) bool {
+	if len(b.List) == 0 {
+		return false
+	}
+	for _, s := range b.List[:len(b.List)-1] {
+		if es, ok := s.(*ast.ExprStmt); !ok {
+			return false
+		} else if _, ok := es.X.(*ast.CallExpr); !ok {
+			return false
+		}
+	}
+	rs, ok := b.List[len(b.List)-1].(*ast.ReturnStmt)
+	return ok && len(rs.Results) == 1 && exprStr(rs.Results[0]) == "err"
 }
 
 func blockEndsInReturn(b *ast.BlockStmt) bool {
@@ -813,7 +829,7 @@ func (t *sendTr) sendStmt(s ast.Stmt, next ast.Stmt) (handled bool, skipNext boo
 			if f := writeToFrame(as.Rhs[0]); f != nil {
 				return true, false, t.send(f)
 			}
-			if c, ok := as.Rhs[0].(*ast.CallExpr); ok && len(as.Lhs) == 2 && blockEndsInReturn(x.Body) {
+			if c, ok := as.Rhs[0].(*ast.CallExpr); ok && len(as.Lhs) == 2 && exprStr(as.Lhs[1]) == "err" && isReturnErr(x.Body) {
 				return true, false, t.encAssign(as.Lhs, c, false)
 			}
 		}
@@ -1330,6 +1346,14 @@ func translateSender(p *packages.Package, fd *ast.FuncDecl, name string, encs ma
 	return res
 }
 
+func sendStrList(l []string) string {
+	var q []string
+	for _, x := range l {
+		q = append(q, fmt.Sprintf("%q", x))
+	}
+	return "[" + strings.Join(q, ", ") + "]"
+}
+
 // senderFacts writes Gen/Senders.lean.
 func senderFacts(pkgs []*packages.Package, root *packages.Package, b *strings.Builder) {
 	rootPackage = root
@@ -1447,6 +1471,7 @@ func senderFacts(pkgs []*packages.Package, root *packages.Package, b *strings.Bu
 	ignored, dict := map[string]bool{}, map[string]bool{}
 	var done, untr []string
 	senders := map[*types.Func]*sendResult{}
+	var sessArgs []string
 	for _, c := range cs {
 		r := translateSender(c.p, c.fd, c.name, encs, addr, ignored, dict, nil)
 		if r.err != nil {
@@ -1454,6 +1479,7 @@ func senderFacts(pkgs []*packages.Package, root *packages.Package, b *strings.Bu
 			continue
 		}
 		done = append(done, fmt.Sprintf("%q", c.name))
+		sessArgs = append(sessArgs, fmt.Sprintf("(%q, %s)", c.name, sendStrList(r.extraNames)))
 		rr := r
 		senders[c.p.TypesInfo.Defs[c.fd.Name].(*types.Func)] = &rr
 		fmt.Fprintf(b, "/-- Go: %s -/\n%s\n%s\n\n", strings.ReplaceAll(r.src, "-/", "- /"), r.sig, strings.Join(r.lines, "\n"))
@@ -1509,6 +1535,7 @@ func senderFacts(pkgs []*packages.Package, root *packages.Package, b *strings.Bu
 			continue
 		}
 		wdone = append(wdone, fmt.Sprintf("%q", c.name))
+		sessArgs = append(sessArgs, fmt.Sprintf("(%q, %s)", c.name, sendStrList(r.extraNames)))
 		fmt.Fprintf(b, "/-- Go: %s -/\n%s\n%s\n\n", strings.ReplaceAll(r.src, "-/", "- /"), r.sig, strings.Join(r.lines, "\n"))
 	}
 	lst := func(m map[string]bool) string {
@@ -1523,6 +1550,7 @@ func senderFacts(pkgs []*packages.Package, root *packages.Package, b *strings.Bu
 	fmt.Fprintf(b, "/-- F15: send paths the translator could NOT express, with the first offending construct -/\ndef sendersUntranslated : List (String × String) := [\n  %s]\n\n", strings.Join(untr, ",\n  "))
 	fmt.Fprintf(b, "/-- F15: functions ending in a call of a translated send path (message builder + send), translated above -/\ndef wrappersTranslated : List String := [%s]\n\n", strings.Join(wdone, ", "))
 	fmt.Fprintf(b, "/-- F15: such functions the translator could NOT express, with the first offending construct -/\ndef wrappersUntranslated : List (String × String) := [\n  %s]\n\n", strings.Join(wuntr, ",\n  "))
+	fmt.Fprintf(b, "/-- F15: per translated function, the session / package-level values it reads (its trailing arguments, in order): which NIC field is the Ethernet source is part of the tie -/\ndef sendersSessionArgs : List (String × List String) := [\n  %s]\n\n", strings.Join(sessArgs, ",\n  "))
 	fmt.Fprintf(b, "/-- F15: statements without effect on the frame that were skipped -/\ndef sendersIgnored : List String := [%s]\n\n", lst(ignored))
 	fmt.Fprintf(b, "/-- F15: Go callees replaced by a model function -/\ndef sendersDict : List String := [%s]\n\n", lst(dict))
 	fmt.Fprintf(b, "/-- F15: ICMP.SetChecksum was regenerated from its own body -/\ndef setChecksumTranslated : Bool := %v\n\n", cksOK)
